@@ -31,7 +31,7 @@ MUST_REACH = ["gmres:lucky_breakdown", "gmres:lu_fallback"]
 
 EPS = refq.EPS
 CLASSES = ["generic", "herm_def", "herm_indef", "unitary", "scaled_identity", "identity_rank1", "identity_rank2", "upper_tri",
-           "lower_tri", "distinct_eigs", "quat_scaled_identity", "real_diagonal"]
+           "lower_tri", "distinct_eigs", "quat_scaled_identity", "real_diagonal", "clustered_eigs", "near_identity"]
 
 
 # --------------------------------------------------------------------------------------
@@ -48,6 +48,8 @@ def cases(tier, seed):
             ds = [None]
             if cls == "distinct_eigs":
                 ds = list(range(1, n + 1))
+            if cls == "clustered_eigs":
+                ds = [max(1, n // 2)]
             for d in ds:
                 for rep in range(reps):
                     if tier == "thorough" and n > 8 and rep > 0:
@@ -71,7 +73,12 @@ def make_matrix(rng, cls, n, d=None):
         kappa = float(rng.choice([3.0, 30.0, 300.0]))
         s = np.geomspace(kappa, 1.0, n) if n > 1 else np.array([1.5])
         A, _, _ = refq.with_singular_values(rng, n, n, s)
-    elif cls in ("herm_def", "herm_indef", "distinct_eigs", "real_diagonal"):
+    elif cls == "near_identity":
+        # Krylov space NEARLY invariant after one step (sub-diagonal 1e-3..1e-7 relative), but no breakdown
+        pert = 10.0 ** float(rng.choice([-3.0, -5.0, -7.0]))
+        A = refq.eye(n) * float(rng.choice([1.0, -2.0])) + refq.randq(rng, n, n) * pert
+        info["near_invariant"] = pert
+    elif cls in ("herm_def", "herm_indef", "distinct_eigs", "real_diagonal", "clustered_eigs"):
         if cls == "herm_def":
             lam = 1.0 + 9.0 * rng.random(n)
         elif cls == "herm_indef":
@@ -83,6 +90,10 @@ def make_matrix(rng, cls, n, d=None):
             vals = (1.0 + np.arange(dd) * 1.5) * rng.choice([-1.0, 1.0], size=dd)
             lam = np.array([vals[i % dd] for i in range(n)])
             info["distinct"] = dd
+            if cls == "clustered_eigs":
+                # d clusters: the members of a cluster differ by 1e-3 .. 1e-6 relative (nearly, not exactly, repeated eigenvalues)
+                lam = lam * (1.0 + 10.0 ** rng.choice([-3.0, -4.5, -6.0], size=n) * rng.standard_normal(n))
+                info["distinct"] = n
         if cls == "real_diagonal":
             A = refq.diagq(lam)
             info["eigvecs"] = refq.eye(n)
@@ -128,6 +139,9 @@ def rhs_list(rng, n, info, tier):
             cols = rng.choice(n, size=j, replace=False)
             w = refq.randq(rng, j, 1)
             out.append((f"eig_sum_{j}", refq.matmul(U[:, cols].copy(), w)))
+        # nearly (not exactly) an eigenvector: the Krylov space is nearly invariant after one step
+        j = int(rng.integers(0, n))
+        out.append(("near_eigvec", U[:, j:j + 1].copy() + refq.randq(rng, n, 1) * 10.0 ** float(rng.choice([-3.0, -5.0]))))
     out.append(("zero", refq.zeros(n, 1)))
     return out
 
